@@ -490,6 +490,27 @@ Definition sp_root_v2 (leaf_hash : bytes) (leaf_index filesize : Z) (proof : lis
                         (if Z.testbit leaf_index i then node h root else node root h, i + 1)) low (leaf_hash, 0)) in
     fold_left (fun root h => node h root) high root.
 
+(* the renewal branch of validateV2FileContracts *)
+Definition validate_renewal (s : lstate) (fc : fc2) (rn : renewal) : R unit :=
+  if negb (beq (c_renter_key fc) (c_renter_key (rn_new rn))) then err 130
+  else if negb (beq (c_host_key fc) (c_host_key (rn_new rn))) then err 131
+  else
+    do a <- cadd (sco_value (rn_final_renter rn)) (rn_renter_rollover rn);
+    do b <- cadd a (sco_value (rn_final_host rn));
+    do total <- cadd b (rn_host_rollover rn);
+    do existing <- cadd (sco_value (c_renter fc)) (sco_value (c_host fc));
+    if negb (total =? existing) then err 132
+    else
+      do c1 <- cadd (sco_value (c_renter (rn_new rn))) (sco_value (c_host (rn_new rn)));
+      do tx <- v2_tax (rn_new rn);
+      do cost <- cadd c1 tx;
+      do roll <- cadd (rn_renter_rollover rn) (rn_host_rollover rn);
+      if cost <? roll then err 133
+      else do _ <- validate_contract s (rn_new rn);
+        if negb (vlookup vt (c_renter_key fc) (rn_sighash rn) (rn_renter_sig rn)) then err 134
+        else if negb (vlookup vt (c_host_key fc) (rn_sighash rn) (rn_host_sig rn)) then err 135
+        else Ok tt.
+
 Definition validate_v2_contracts (s : lstate) (m : mid) (t : txn2) : R unit :=
   let validate_parent (p : pres fce2) (revised resolved : list id) : R unit :=
     let i := v2_id (p_val p) in
@@ -516,25 +537,7 @@ Definition validate_v2_contracts (s : lstate) (m : mid) (t : txn2) : R unit :=
        let fc := v2_fc (p_val (rs_parent rs)) in
        do _ <-
          match rs_res rs with
-         | RRenewal rn =>
-           if negb (beq (c_renter_key fc) (c_renter_key (rn_new rn))) then err 130
-           else if negb (beq (c_host_key fc) (c_host_key (rn_new rn))) then err 131
-           else
-             do a <- cadd (sco_value (rn_final_renter rn)) (rn_renter_rollover rn);
-             do b <- cadd a (sco_value (rn_final_host rn));
-             do total <- cadd b (rn_host_rollover rn);
-             do existing <- cadd (sco_value (c_renter fc)) (sco_value (c_host fc));
-             if negb (total =? existing) then err 132
-             else
-               do c1 <- cadd (sco_value (c_renter (rn_new rn))) (sco_value (c_host (rn_new rn)));
-               do tx <- v2_tax (rn_new rn);
-               do cost <- cadd c1 tx;
-               do roll <- cadd (rn_renter_rollover rn) (rn_host_rollover rn);
-               if cost <? roll then err 133
-               else do _ <- validate_contract s (rn_new rn);
-                 if negb (vlookup vt (c_renter_key fc) (rn_sighash rn) (rn_renter_sig rn)) then err 134
-                 else if negb (vlookup vt (c_host_key fc) (rn_sighash rn) (rn_host_sig rn)) then err 135
-                 else Ok tt
+         | RRenewal rn => validate_renewal s fc rn
          | RProof sp =>
            if child s <? c_proof_height fc then err 136
            else if negb (snd (p_val (sp2_index sp)) =? c_proof_height fc) then err 137
